@@ -256,8 +256,14 @@ def check_rebase(ctx, out, rule="C03.rebase"):
         for bi, j, s in b.assigns():
             lhs = s["lhs"]
             fields = tuple(e["f"] for e in lhs["p"] if isinstance(e, dict) and "f" in e)
+            if len(fields) == 2 and fields[-1] in ("line", "character") and fields[0] in ("start", "end"):
+                # written through `let r = &mut comment.position_range;`
+                whole = [s2 for _, _, s2 in b.assigns() if s2["lhs"]["l"] == lhs["l"] and not s2["lhs"]["p"]]
+                if len(whole) == 1 and whole[0]["rv"]["k"] == "ref":
+                    bf = tuple(e["f"] for e in whole[0]["rv"]["place"]["p"] if isinstance(e, dict) and "f" in e)
+                    fields = bf + fields
             if len(fields) >= 3 and fields[-3] == "position_range" and fields[-1] in ("line", "character"):
-                labs = ctx.prov.read_operand(b, s["rv"]["op"]) if s["rv"]["k"] == "use" else set()
+                labs = ctx.prov.resolve_upvars(b, ctx.prov.read_operand(b, s["rv"]["op"])) if s["rv"]["k"] == "use" else set()
                 writes[(fields[-2], fields[-1])] = (bi, j, s, labs)
         if not writes:
             continue
